@@ -162,3 +162,52 @@ Proof.
   destruct (ts_counter_from sched (tinit progs)) as [H _]. fold (trun progs sched) in H.
   cbn in H. unfold all_values. rewrite rev_length, map_length. rewrite H. f_equal. lia.
 Qed.
+
+(* ================================================================ clause wrappers *)
+(* a creation / renewal in any reachable state, by any thread: the variable receives a value
+   larger than (so distinct from) every value obtained before by any thread, this one included *)
+Lemma ts_fresh_larger progs sched t x rest :
+  let s := trun progs sched in
+  t_prog s t = MFetchAdd x :: rest ->
+  t_vars (tstep s t) t x = Some (t_g s) /\
+  Forall (fun v => v < t_g s) (all_values s) /\
+  all_values (tstep s t) = all_values s ++ [t_g s] /\
+  thread_values (tstep s t) t = thread_values s t ++ [t_g s].
+Proof.
+  intros s P. destruct (ts_fetch_add_step s t x rest (trun_inv progs sched) P) as [Hv [Hl [Hb _]]].
+  split; [exact Hv|]. split.
+  - unfold all_values. rewrite Forall_forall in *. intros v Hin. apply Hb. rewrite <- in_rev in Hin. exact Hin.
+  - unfold all_values, thread_values. rewrite Hl. cbn [map snd filter fst]. rewrite N.eqb_refl.
+    cbn [map snd rev]. split; reflexivity.
+Qed.
+
+(* a copy (constructor's load or assignment) in any state: the destination holds exactly the source's
+   value, nothing is obtained from the counter, nobody else's variable changes *)
+Lemma ts_copy_carries s t x t' y rest :
+  t_prog s t = MCopy x t' y :: rest ->
+  t_vars (tstep s t) t x = t_vars s t' y /\ all_values (tstep s t) = all_values s /\ t_g (tstep s t) = t_g s /\
+  (forall t0 x0, (t0, x0) <> (t, x) -> t_vars (tstep s t) t0 x0 = t_vars s t0 x0).
+Proof.
+  intro P. destruct (ts_copy_step s t x t' y rest P) as [H1 [H2 [H3 H4]]].
+  split; [exact H1|]. split; [unfold all_values; rewrite H2; reflexivity|]. split; assumption.
+Qed.
+
+(* distinct + increasing in one statement about pairs of positions *)
+Lemma sorted_nth_lt l : StronglySorted N.lt l ->
+  forall i j d, (i < j)%nat -> (j < length l)%nat -> nth i l d < nth j l d.
+Proof.
+  induction 1 as [|a l Hs IH Hall]; intros i j d Hij Hj; cbn in Hj; [lia|].
+  destruct j as [|j]; [lia|]. destruct i as [|i]; cbn [nth].
+  - rewrite Forall_forall in Hall. apply Hall. apply nth_In. lia.
+  - apply IH; lia.
+Qed.
+
+Lemma ts_pairwise progs sched i j d :
+  (i < j)%nat -> (j < length (all_values (trun progs sched)))%nat ->
+  nth i (all_values (trun progs sched)) d < nth j (all_values (trun progs sched)) d.
+Proof. apply sorted_nth_lt. apply ts_all_sorted. Qed.
+
+Lemma ts_thread_pairwise progs sched t i j d :
+  (i < j)%nat -> (j < length (thread_values (trun progs sched) t))%nat ->
+  nth i (thread_values (trun progs sched) t) d < nth j (thread_values (trun progs sched) t) d.
+Proof. apply sorted_nth_lt. apply ts_thread_increasing. Qed.
